@@ -9,7 +9,8 @@ TrLeaf(v)    == [t |-> "leaf", ty |-> "str", v |-> v]
 TrLeafT(ty, v) == [t |-> "leaf", ty |-> ty, v |-> v]
 TrNil        == [t |-> "nil"]
 TrStk(k, e)  == [t |-> "stk", k |-> k, form |-> "native", paren |-> FALSE, fold |-> FALSE, nspad |-> FALSE,
-                 lonce |-> FALSE, sym |-> <<>>, delim |-> <<>>, enc |-> <<>>, e |-> e]
+                 lonce |-> FALSE, sym |-> <<>>, delim |-> <<>>, enc |-> <<>>, neg |-> FALSE, fwd |-> FALSE,
+                 mtx |-> FALSE, cap |-> 0, e |-> e]
 TrCnd(kw, op, ex) == [t |-> "cnd", form |-> "native", kw |-> kw, op |-> op, ex |-> ex, paren |-> FALSE,
                       nspad |-> FALSE, enc |-> <<>>]
 
@@ -44,4 +45,12 @@ Configs(k, e) ==
       s \in (IF k = "LIST" THEN {<<>>} ELSE Syms), d \in (IF k = "LIST" THEN Delims ELSE {<<>>}), en \in Encs}
 
 SeqsUpTo(S, n) == UNION {[1..m -> S] : m \in 0..n}
+
+\* structural shape of a tree: what Unmarshal / Defrag / Reveal results are compared on
+RECURSIVE Shape(_)
+Shape(n) ==
+  CASE n.t = "leaf" -> [t |-> "leaf", v |-> n.v]
+    [] n.t = "nil"  -> [t |-> "nil"]
+    [] n.t = "stk"  -> [t |-> "stk", k |-> n.k, paren |-> n.paren, e |-> [i \in 1..Len(n.e) |-> Shape(n.e[i])]]
+    [] n.t = "cnd"  -> [t |-> "cnd", kw |-> n.kw, op |-> n.op, ex |-> Shape(n.ex)]
 =============================================================================
